@@ -2,7 +2,7 @@
 symbolic arguments, enclosing loops and guards (used by the construction-shape rules)."""
 import re
 
-from .facts import callee, strip, walk
+from .facts import callee, strip, walk, plain_local
 from .symx import SymEval, Unsupported, Poly, app, var, num, vkey
 
 
@@ -114,9 +114,9 @@ class Tracer(SymEval):
         # variables assigned in the loop body are loop-carried: forget their values
         for a in walk(n["body"]):
             if a.get("k") in ("assign", "assignop"):
-                t = strip(a["l"])
-                if t.get("k") == "path" and t.get("res") == "local":
-                    e2[t["name"]] = var(t["name"].split("#")[0] + "@loop")
+                nm = plain_local(a["l"])
+                if nm is not None:
+                    e2[nm] = var(nm.split("#")[0] + "@loop")
         self.loops.append(loop)
         try:
             self.eval(n["body"], e2)
@@ -125,17 +125,17 @@ class Tracer(SymEval):
         # after the loop, loop-carried variables stay unknown
         for a in walk(n["body"]):
             if a.get("k") in ("assign", "assignop"):
-                t = strip(a["l"])
-                if t.get("k") == "path" and t.get("res") == "local" and t["name"] in env:
-                    env[t["name"]] = var(t["name"].split("#")[0] + "@after")
+                nm = plain_local(a["l"])
+                if nm is not None and nm in env:
+                    env[nm] = var(nm.split("#")[0] + "@after")
         return ("tuple", [])
 
     def _forget_assigned(self, body, env, tag):
         for a in walk(body):
             if a.get("k") in ("assign", "assignop"):
-                t = strip(a["l"])
-                if t.get("k") == "path" and t.get("res") == "local" and t["name"] in env:
-                    env[t["name"]] = var(t["name"].split("#")[0] + tag)
+                nm = plain_local(a["l"])
+                if nm is not None and nm in env:
+                    env[nm] = var(nm.split("#")[0] + tag)
 
     def e_while(self, n, env):
         e2 = dict(env)
@@ -184,13 +184,13 @@ class Tracer(SymEval):
             else:
                 e = s["e"]
                 if e.get("k") in ("assign", "assignop"):
-                    tgt = strip(e["l"])
+                    nm = plain_local(e["l"])
                     r = self.eval(e["r"], env)
-                    if tgt.get("k") == "path" and tgt.get("res") == "local":
+                    if nm is not None:
                         if e["k"] == "assignop":
                             r = self.arith(e["op"].replace("Assign", ""), self.eval(e["l"], env), r)
-                        env[tgt["name"]] = r
-                        self.assigned[tgt["name"]] = r
+                        env[nm] = r
+                        self.assigned[nm] = r
                     else:
                         self.events.append(Event("<assign>", [self.eval(e["l"], env), r], self.loops, self.guards,
                                                  e.get("sp"), e))
